@@ -67,7 +67,7 @@ func init() {
 		"goroutine scheduler (parallel fetches, planner goroutines), map iteration order, clock":                                                                                            "simulated (baton scheduler; seeded map order where stated)",
 	}
 	fedAssume := []string{
-		"generated federations are conservative: 2-4 subgraphs, 1-3 entities keyed by id, scalar/enum/list/value-object/reference fields, @requires on one scalar sibling, @provides of one scalar on reference fields; no interfaces/unions, compound keys, @shareable divergence or @override",
+		"generated federations: 2-4 subgraphs, 1-3 entities keyed by id, scalar/enum/list/value-object/reference fields, @requires on one sibling (chains that never revisit a subgraph; scalars and, in the extended generator, lists of scalars with null items), @provides of one scalar on reference fields; the extended generator (all FED checks except C10, 45% of the configurations) adds the interface Node and the union AnyE over all entities with abstract roots and fields, fragments on member types, and lists of lists of value objects; no compound keys, @shareable divergence, @override or interface objects",
 		"the reference monolith and the subgraph servers share one small executor written for this harness; a bug there would show as a violation on the unchanged tree, not hide one",
 		"baton scheduling serialises execution: pure data races on plain fields are invisible",
 	}
